@@ -78,3 +78,6 @@ m Q.pop_returns_true_always 1 $TQ '(--work_items_count_\.data_;\s*return true;\s
 m Q.pop_drops_result 1 $TQ 'thrd\.reset\(next_thrd, false\);    // do not addref!' '' '^queue.get_next'
 m Q.bp_pop_order 0 $TQ 'thrd\.reset\(next_thrd, false\);    // do not addref!\s*--work_items_count_\.data_;' '--work_items_count_.data_; thrd.reset(next_thrd, false);' '^queue.get_next'
 m C.census_new_writer 2 $TQ 'PIKA_ASSERT\(&thrd->get_queue<thread_queue>\(\) == this\);' 'PIKA_ASSERT(&thrd->get_queue<thread_queue>() == this); thrd->set_state(threads::detail::thread_schedule_state::terminated);' '^lemma.ownership'
+# ---- the two defects found on the pinned tree (repaired in /repo by 87c27df and 1e51e15), re-introduced
+m D.set_state_stale_ex 1 $TD 'thread_restart_state const new_state_ex =\s*state_ex == thread_restart_state::unknown \? tmp\.state_ex\(\) : state_ex;(\s*if \(PIKA_LIKELY\(current_state_\.compare_exchange_strong\(\s*tmp, thread_state\(state, )new_state_ex' 'if (state_ex == thread_restart_state::unknown) state_ex = tmp.state_ex();\1state_ex' '^word.set_state$'
+m D.abort_all_toctou 1 $TQ 'auto const state = thrd->get_state\(\);.*?if \(state\.state\(\) == threads::detail::thread_schedule_state::suspended &&\s*thrd->restore_state\(threads::detail::thread_schedule_state::pending,\s*pika::threads::detail::thread_restart_state::abort, state\)\)\s*\{' 'if (thrd->get_state().state() == threads::detail::thread_schedule_state::suspended) { thrd->set_state(threads::detail::thread_schedule_state::pending, pika::threads::detail::thread_restart_state::abort);' '^other.abort'
